@@ -395,14 +395,15 @@ Proof.
   - eexists; split; [reflexivity|apply tri_agrees_of_bool].
   - eexists; split; [reflexivity|]. unfold tri_agrees; split; discriminate.
 Qed.
-Lemma bal_any_pair : forall o v (a : acc_ent), (List.length (fa_balances a) <= 1)%nat ->
-  exists t, flt_eval (emit_bal_sub None o v) (row_of (EAcc a)) = Some t /\
-            tri_agrees t (existsb (fun ab => sat_num o (snd ab) v) (fa_balances a)).
+Lemma existsb_false {A} (l : list A) : existsb (fun _ => false) l = false.
+Proof. induction l; simpl; auto. Qed.
+(* bare `balance` (repaired code: EXISTS over the per-asset rows): two-valued, any number of assets *)
+Lemma bal_any_pair : forall o v (a : acc_ent),
+  flt_eval (emit_bal_sub None o v) (row_of (EAcc a))
+  = Some (tri_of_bool (existsb (fun ab => sat_num o (snd ab) v) (fa_balances a))).
 Proof.
-  intros o v a Hlen. unfold emit_bal_sub, sat_num.
-  destruct (fa_balances a) as [|ab [|ab' rest]] eqn:Eb; [| |simpl in Hlen; lia];
-    destruct (cmp_of o) as [c|], v; simpl; rewrite ?Eb; simpl;
-      eexists; (split; [reflexivity|]); rewrite ?orb_false_r; try apply tri_agrees_of_bool; unfold tri_agrees; split; discriminate.
+  intros o v a. unfold emit_bal_sub, sat_num.
+  destruct (cmp_of o) as [c|], v; simpl; rewrite ?existsb_false; reflexivity.
 Qed.
 
 (* ------------------------------------------------------------------ hypotheses of the soundness theorem *)
@@ -414,10 +415,11 @@ Definition ent_kind (R : fresource) (e : fentity) : bool :=
 (* accounts_volumes has primary key (ledger, accounts_address, asset): one balance row per asset *)
 Definition wf_entity (e : fentity) : Prop :=
   match e with EAcc a => NoDup (map fst (fa_balances a)) | _ => True end.
-(* columns that can be NULL for an entity that exists: reference, reverted_at, the per-asset balance sub-select *)
+(* columns that can be NULL for an entity that exists: reference, reverted_at, the per-asset balance sub-select
+   (bare `balance` is an EXISTS since fixes/filter-08: never NULL) *)
 Definition nullable (R : fresource) (k : fkey) : bool :=
   match R, k with
-  | RTx, KReference | RTx, KRevertedAt | RAcc, KBalance _ | RAcc, KBalanceAny => true
+  | RTx, KReference | RTx, KRevertedAt | RAcc, KBalance _ => true
   | _, _ => false
   end.
 (* documented leaf forms: "..." only as last segment of an address pattern; full addresses in `$in`; no `$in` on
@@ -428,12 +430,6 @@ Definition leaf_okb (o : fop) (k : fkey) (v : fval) : bool :=
                          | VStrs l => forallb (fun p => negb (is_partial p)) l    (* `$in` takes full addresses only *)
                          | _ => true end else true)
   && match k, o with KMeta _, OIn => false | _, _ => true end.
-(* bare `balance` on accounts: the scalar sub-select ranges over ALL assets of the account *)
-Definition bare_okb (R : fresource) (k : fkey) (e : fentity) : bool :=
-  match R, k, e with
-  | RAcc, KBalanceAny, EAcc a => Nat.leb (List.length (fa_balances a)) 1
-  | _, _, _ => true
-  end.
 Definition is_nil {A} (l : list A) : bool := match l with [] => true | _ => false end.
 (* strict: no nullable leaf anywhere (two-valued);  pos: nullable leaves allowed, but not below a $not *)
 Fixpoint strict_f (R : fresource) (f : filter) : bool :=
@@ -443,11 +439,11 @@ Fixpoint strict_f (R : fresource) (f : filter) : bool :=
   | FOr l => negb (is_nil l) && forallb (strict_f R) l
   | FNot g => strict_f R g
   end.
-Fixpoint pos_f (R : fresource) (e : fentity) (f : filter) : bool :=
+Fixpoint pos_f (R : fresource) (f : filter) : bool :=
   match f with
-  | FLeaf o k v => leaf_okb o k v && bare_okb R k e
-  | FAnd l => forallb (pos_f R e) l
-  | FOr l => negb (is_nil l) && forallb (pos_f R e) l
+  | FLeaf o k v => leaf_okb o k v
+  | FAnd l => forallb (pos_f R) l
+  | FOr l => negb (is_nil l) && forallb (pos_f R) l
   | FNot g => strict_f R g
   end.
 
@@ -466,7 +462,8 @@ Proof.
     try (apply str_pair; reflexivity);
     try (apply meta_pair; [reflexivity|now apply (Hmeta k)]);
     try (apply meta_exists_pair; reflexivity);
-    try (apply addr_pair; [reflexivity|reflexivity|now apply Hpat']).
+    try (apply addr_pair; [reflexivity|reflexivity|now apply Hpat']);
+    try (apply bal_any_pair).
   all: try (rewrite tx_addr_pair by (now apply Hpat'); simpl; rewrite ?app_nil_r; reflexivity).
   all: try (destruct v as [| | |[]|]; simpl; try reflexivity; destruct (ft_reverted_at t); reflexivity).
   all: try (destruct o; try reflexivity; apply str_pair; reflexivity).
@@ -476,17 +473,16 @@ Proof.
 Qed.
 
 Lemma leaf_pos : forall R o k v e, ent_kind R e = true -> wf_entity e ->
-  leaf_okb o k v = true -> bare_okb R k e = true ->
+  leaf_okb o k v = true ->
   exists t, flt_eval (emit_leaf R o k v) (row_of e) = Some t /\ tri_agrees t (sat_leaf R o k v e).
 Proof.
-  intros R o k v e Hk Hwf Hl Hb.
+  intros R o k v e Hk Hwf Hl.
   destruct (nullable R k) eqn:Hn.
   2:{ eexists. split; [apply leaf_strict; assumption|apply tri_agrees_of_bool]. }
   destruct R, e; try discriminate Hk; destruct k; try discriminate Hn; cbn [emit_leaf sat_leaf sat_leaf_tx sat_leaf_acc].
   - apply str_opt_pair. reflexivity.
   - apply time_opt_pair. reflexivity.
   - apply bal_sub_pair. exact Hwf.
-  - apply bal_any_pair. simpl in Hb. now apply Nat.leb_le.
 Qed.
 
 (* ------------------------------------------------------------------ induction over filters *)
@@ -584,11 +580,11 @@ Proof.
 Qed.
 
 (* with nullable leaves in positive position: TRUE exactly when the reference says so (otherwise FALSE or NULL) *)
-Theorem emit_pos : forall R e, ent_kind R e = true -> wf_entity e -> forall f, pos_f R e f = true ->
+Theorem emit_pos : forall R e, ent_kind R e = true -> wf_entity e -> forall f, pos_f R f = true ->
   exists t, flt_eval (flt_emit R f) (row_of e) = Some t /\ tri_agrees t (flt_sat R f e).
 Proof.
   intros R e Hk Hwf. induction f as [o k v|l IH|l IH|g IH] using filter_ind'; intros Hs.
-  - simpl in Hs. apply andb_true_iff in Hs. destruct Hs as [Hl Hb]. now apply leaf_pos.
+  - simpl in Hs. now apply leaf_pos.
   - simpl in Hs. rewrite Forall_forall in IH. rewrite forallb_forall in Hs.
     destruct l as [|g0 l0]; [exists TTrue; split; [reflexivity|apply (tri_agrees_of_bool true)]|].
     exact (eval_and_pos_map (fun c => flt_eval c (row_of e)) (flt_emit R) (fun g => flt_sat R g e) (g0 :: l0) TTrue true
@@ -615,7 +611,7 @@ Qed.
 
 Theorem list_sound : forall R pit f es,
   flt_validate R f = FvOk -> flt_prefilter R pit f = None ->
-  (forall e, In e es -> ent_kind R e = true /\ wf_entity e /\ pos_f R e f = true) ->
+  (forall e, In e es -> ent_kind R e = true /\ wf_entity e /\ pos_f R f = true) ->
   flt_list R pit f es = FrOk (flt_ref R f es).
 Proof.
   intros R pit f es Hv Hp H. unfold flt_list, flt_dataset, flt_ref. rewrite Hv, Hp.
@@ -675,12 +671,12 @@ Proof.
 Qed.
 
 Lemma pushdown_covers : forall R x f, (R = RVol \/ R = RAgg) ->
-  pos_f R (EVol x) f = true -> safe_lateral false f = true -> contains_addr f = true ->
+  pos_f R f = true -> safe_lateral false f = true -> contains_addr f = true ->
   flt_sat R f (EVol x) = true ->
   existsb (fun p => addr_match p (fv_account x)) (collect_addrs f) = true.
 Proof.
   intros R x f HR. induction f as [o k v|l IH|l IH|g IH] using filter_ind'; intros Hpos Hsafe Hc Hsat.
-  - simpl in Hpos. apply andb_true_iff in Hpos. destruct Hpos as [Hok _]. simpl in Hc.
+  - simpl in Hpos. rename Hpos into Hok. simpl in Hc.
     unfold collect_addrs. simpl. rewrite app_nil_r.
     assert (Hs : sat_addr o [fv_account x] v = true).
     { destruct HR as [-> | ->]; simpl in Hsat; destruct k; try discriminate Hc; simpl in Hsat; first [exact Hsat|discriminate Hsat]. }
@@ -753,10 +749,10 @@ Proof.
     exact (IH g Hg (Hs g Hg) p Hp).
   - simpl in Hs. apply IH; [exact Hs|exact Hp].
 Qed.
-Lemma pos_collect_ok : forall R e f, pos_f R e f = true -> forall p, In p (collect_addrs f) -> addr_ok p = true.
+Lemma pos_collect_ok : forall R f, pos_f R f = true -> forall p, In p (collect_addrs f) -> addr_ok p = true.
 Proof.
-  intros R e. induction f as [o k v|l IH|l IH|g IH] using filter_ind'; intros Hs p Hp.
-  - simpl in Hs. apply andb_true_iff in Hs. destruct Hs as [Hok _]. exact (leaf_collect_ok o k v Hok p Hp).
+  intros R. induction f as [o k v|l IH|l IH|g IH] using filter_ind'; intros Hs p Hp.
+  - simpl in Hs. exact (leaf_collect_ok o k v Hs p Hp).
   - rewrite collect_addrs_and in Hp. apply in_flat_map in Hp. destruct Hp as [g [Hg Hp]].
     simpl in Hs. rewrite forallb_forall in Hs. rewrite Forall_forall in IH. exact (IH g Hg (Hs g Hg) p Hp).
   - rewrite collect_addrs_or in Hp. apply in_flat_map in Hp. destruct Hp as [g [Hg Hp]].
@@ -812,7 +808,7 @@ Qed.
 (* list = exactly the matching entities, push-down or not *)
 Theorem list_sound_pushdown : forall R pit f es,
   flt_validate R f = FvOk ->
-  (forall e, In e es -> ent_kind R e = true /\ wf_entity e /\ pos_f R e f = true) ->
+  (forall e, In e es -> ent_kind R e = true /\ wf_entity e /\ pos_f R f = true) ->
   flt_list R pit f es = FrOk (flt_ref R f es).
 Proof.
   intros R pit f es Hv H. destruct (flt_prefilter R pit f) as [addrs|] eqn:Hp; [|now apply list_sound].
@@ -825,6 +821,6 @@ Proof.
   2:{ intros e He. apply filter_In in He. destruct He as [He _]. destruct (H e He) as [Hk [Hwf Hpos]]. now apply emit_pos. }
   f_equal. apply filter_filter_implied. intros e He Hs. destruct (H e He) as [Hk [_ Hpos]].
   assert (exists x, e = EVol x) as [x ->] by (destruct HR as [-> | ->]; destruct e; try discriminate Hk; eauto).
-  unfold pre. rewrite (prefilter_eval (collect_addrs f) x (pos_collect_ok R (EVol x) f Hpos)).
+  unfold pre. rewrite (prefilter_eval (collect_addrs f) x (pos_collect_ok R f Hpos)).
   now rewrite (pushdown_covers R x f HR Hpos Hsafe Hc Hs).
 Qed.
